@@ -233,8 +233,15 @@ Fixpoint c07z_walk (waiting : list nat) (dialing closed : bool) (sc : list (zact
     ok1 && c07z_walk waiting2 dialing1 closed1 t
   end.
 
+(** … and no reservation is left hanging at the end: the harness lets every
+    early caller through before it stops, so a reservation still blocked (or a
+    connection whose mutex can no longer be taken, reported as 77777) means a
+    call that will never return. *)
 Definition spec_c07 (c : case) : bool :=
-  match c with CLazy _ _ script _ _ _ => c07z_walk [] true false script end.
+  match c with
+  | CLazy _ _ script fr _ fb =>
+    c07z_walk [] true false script && match fb with [] => true | _ => false end && negb (fr =? 77777)
+  end.
 
 Definition zactions (c : case) : list zaction := match c with CLazy _ _ script _ _ _ => map fst script end.
 Definition nontrivial_c09 (c : case) : bool :=
